@@ -39,6 +39,7 @@ class Store1:
         self.nonces = set()
         self.fresh = 0
         self.trace = []
+        self.events = []
         self.fail_at = None
 
     def cb(self, name):
@@ -46,8 +47,10 @@ class Store1:
         self.trace.append(name)
         if self.fail_at is not None and i == self.fail_at:
             raise Fault(f"injected fault at callback #{i} {name}")
+        self.events.append(name)
 
     def nxt(self, p):
+        self.events.append("gen")
         self.fresh += 1
         return f"{p}{self.fresh}"
 
@@ -77,6 +80,7 @@ class Server1(AuthorizationServer):
         return OAuth1Request(*request)
 
     def handle_response(self, status_code, payload, headers):
+        self.store.events.append("respond")
         return Resp1(status_code, payload, headers)
 
     def get_client_by_id(self, client_id):
